@@ -11,10 +11,11 @@ _WORLD_MODULES = {
     "evmon": "worlds.evmon",
     "csrevmon": "worlds.csrevmon",
     "fields": "worlds.fields",
+    "gpio": "worlds.gpio",
 }
 PROPERTY_WORLD = {
     "C04": "mux", "C05": "mux",
-    "C07": "wbdec", "C10": "wb2csr", "C15": "sram", "C13": "evmon", "C14": "csrevmon", "C11": "fields", "C12": "fields",
+    "C07": "wbdec", "C10": "wb2csr", "C15": "sram", "C13": "evmon", "C14": "csrevmon", "C11": "fields", "C12": "fields", "C16": "gpio",
     "C08": "arbiter", "C09": "arbiter",
     "C02": "memmap", "C03": "memmap", "C18": "memmap",
 }
